@@ -270,9 +270,16 @@ func Reference(site Site, s Settings, sp SeedPlan, seen SeenStore) Expect {
 						next = append(next, refNode{url: a, depthNR: n.depthNR + 1, redirects: 0, hops: n.hops})
 					}
 				}
-				if r.Kind == "html" {
+				// pages queue their <a> targets and Link-header URLs; a JSON document queues the URLs it holds that have no
+				// file extension (those with one are its embedded resources) - they come out of the asset extraction, so only
+				// when assets are captured
+				if r.Kind == "html" || (r.Kind == "json" && len(r.Links) > 0 && !s.DisableAssets) {
 					e.Pages[n.url] = n.hops
-					for _, l := range append(append([]string{}, r.Links...), r.HdrLinks...) {
+					links := append([]string{}, r.Links...)
+					if r.Kind == "html" {
+						links = append(links, r.HdrLinks...)
+					}
+					for _, l := range links {
 						switch {
 						case dc && MatchesDomainsCrawl(l, s):
 							e.Outlinks = append(e.Outlinks, ExpOutlink{URL: l, Via: n.url, Hops: 0})
